@@ -163,7 +163,11 @@ def exec_script(sim, script, r=None, extra_human_cp=0, repeat_cp=0, noop_cmds=0,
                 if r and r.chance(repeat_cp, 8):
                     sim.checkpoint_ai(actor, [path], tool=TOOL)
             else:
-                if bool(extra_human_cp) or (r is not None and r.chance(*human_cp_chance)):
+                # extra_human_cp: 1 = after every human edit; (a, b) = after some of them only (a redundant
+                # checkpoint early in a file's life followed by un-checkpointed edits later is a schedule of its own)
+                always = bool(extra_human_cp) and not isinstance(extra_human_cp, tuple)
+                some = isinstance(extra_human_cp, tuple) and r is not None and r.chance(*extra_human_cp)
+                if always or some or (r is not None and r.chance(*human_cp_chance)):
                     sim.checkpoint_human([path])
                     if r and r.chance(repeat_cp, 8):
                         sim.checkpoint_human([path])
